@@ -107,6 +107,10 @@ Print Assumptions C02_key_iff.
 
 (* ------------------------------------------------------------------ the preprocessor-level key *)
 
+(* well-formedness (wf_p) additionally asks: absolute NUL-free path that neither extends the language tag into another
+   tag nor ends in 64 hex digits and "-"; year/month/day/nanoseconds < 2^32, seconds < 2^64.
+   [salted r] = the file mentions __DATE__ or __TIMESTAMP__ and time macros are not ignored; then the digest component
+   is  H(contents) "-" H(time_pre r)  with  time_pre r  made of the date, SOURCE_DATE_EPOCH and the mtime. *)
 Theorem C02_pp_encode_injective :
   forall (H : bytes -> bytes), (forall x, is_hex64 (H x) = true) ->
   forall r1 r2 : creq,
@@ -115,15 +119,39 @@ Theorem C02_pp_encode_injective :
     digest r1 = digest r2 /\ plusplus r1 = plusplus r2 /\
     tag_of the_spec (lang r1) = tag_of the_spec (lang r2) /\
     args r1 = args r2 /\ extra r1 = extra r2 /\ fenv (allow_pp the_spec) r1 = fenv (allow_pp the_spec) r2 /\
-    path r1 = path r2 /\ H (input r1) = H (input r2).
+    path r1 = path r2 /\ salted r1 = salted r2 /\ H (input r1) = H (input r2) /\
+    (salted r1 = true -> H (time_pre r1) = H (time_pre r2)).
 Proof. exact (fun H Hh r1 r2 => encode_pp_inj H Hh the_spec r1 r2 the_spec_good). Qed.
 Print Assumptions C02_pp_encode_injective.
+
+(* ... and with collision-freeness of H on the two file contents and the two inner time pre-images: all nine
+   components, i.e. also the file contents and what the key sees of date / SOURCE_DATE_EPOCH / mtime. *)
+Theorem C02_pp_encode_injective_canon :
+  forall (H : bytes -> bytes), (forall x, is_hex64 (H x) = true) ->
+  forall r1 r2 : creq,
+    wf_p the_spec r1 = true -> wf_p the_spec r2 = true ->
+    (H (input r1) = H (input r2) -> input r1 = input r2) ->
+    (H (time_pre r1) = H (time_pre r2) -> time_pre r1 = time_pre r2) ->
+    encode_pp H the_spec r1 = encode_pp H the_spec r2 ->
+    canon_p the_spec r1 = canon_p the_spec r2.
+Proof. exact (fun H Hh r1 r2 => pp_components H Hh the_spec r1 r2 the_spec_good). Qed.
+Print Assumptions C02_pp_encode_injective_canon.
+
+(* the inner time pre-image determines the date, SOURCE_DATE_EPOCH and the mtime it was made of *)
+Theorem C02_pp_time_salt_injective :
+  forall r1 r2 : creq,
+    input r1 = input r2 -> time_ok r1 = true -> time_ok r2 = true -> time_pre r1 = time_pre r2 ->
+    (has_date r1 = true -> date r1 = date r2 /\ sde_bytes r1 = sde_bytes r2) /\
+    (has_stamp r1 = true -> mtime r1 = mtime r2).
+Proof. exact time_pre_inj. Qed.
+Print Assumptions C02_pp_time_salt_injective.
 
 Theorem C02_pp_single_change :
   forall (H : bytes -> bytes), (forall x, is_hex64 (H x) = true) ->
   forall r1 r2 : creq,
     wf_p the_spec r1 = true -> wf_p the_spec r2 = true ->
     (H (input r1) = H (input r2) -> input r1 = input r2) ->
+    (H (time_pre r1) = H (time_pre r2) -> time_pre r1 = time_pre r2) ->
     one_differs_p the_spec r1 r2 ->
     encode_pp H the_spec r1 <> encode_pp H the_spec r2.
 Proof. exact (fun H Hh r1 r2 => single_change_p H Hh the_spec r1 r2 the_spec_good). Qed.
@@ -173,6 +201,7 @@ Theorem C02_pp_key_iff :
     gated the_spec r1 = false -> gated the_spec r2 = false ->
     (H (encode_pp H the_spec r1) = H (encode_pp H the_spec r2) -> encode_pp H the_spec r1 = encode_pp H the_spec r2) ->
     (H (input r1) = H (input r2) -> input r1 = input r2) ->
+    (H (time_pre r1) = H (time_pre r2) -> time_pre r1 = time_pre r2) ->
     (pp_key H the_spec r1 = pp_key H the_spec r2 <-> canon_p the_spec r1 = canon_p the_spec r2).
 Proof. exact (fun H Hh r1 r2 => pp_key_iff H Hh the_spec r1 r2 the_spec_good). Qed.
 Print Assumptions C02_pp_key_iff.
@@ -225,10 +254,23 @@ Theorem C02_pp_lang_path_boundary_refuted :
     common_ok the_spec r1 = true /\ common_ok the_spec r2 = true /\
     env_ok (allow_pp the_spec) r1 = true /\ env_ok (allow_pp the_spec) r2 = true /\
     abs_path (path r1) = true /\ abs_path (path r2) = true /\ nonul (path r1) = true /\ nonul (path r2) = true /\
+    path_tail_ok (path r1) = true /\ path_tail_ok (path r2) = true /\ time_ok r1 = true /\ time_ok r2 = true /\
     canon_p the_spec r1 <> canon_p the_spec r2 /\
     forall H, encode_pp H the_spec r1 = encode_pp H the_spec r2.
 Proof. exact pp_lang_path_boundary_refuted. Qed.
 Print Assumptions C02_pp_lang_path_boundary_refuted.
+
+(* without path_tail_ok the pp-level statement is false: for every H there is a path ending in  <64 hex>"-"  ... *)
+Theorem C02_pp_path_tail_refuted :
+  forall H : bytes -> bytes, (forall x, is_hex64 (H x) = true) ->
+  exists r1 r2,
+    common_ok the_spec r1 = true /\ env_ok (allow_pp the_spec) r1 = true /\ abs_path (path r1) = true /\
+    nonul (path r1) = true /\ no_tag_ext_path the_spec (lang r1) (path r1) = true /\ time_ok r1 = true /\
+    wf_p the_spec r2 = true /\
+    input r1 <> input r2 /\
+    encode_pp H the_spec r1 = encode_pp H the_spec r2.
+Proof. exact pp_path_tail_refuted. Qed.
+Print Assumptions C02_pp_path_tail_refuted.
 
 (* S10a, repaired: the tag table as it was (ObjectiveCxxHeader => "objc++") fails tags_ok and aliases two languages. *)
 Theorem C02_old_tags_refuted :
